@@ -263,7 +263,19 @@ def run_schedule(arg):
                     elif stepname == "edit":
                         client_edit(c, nets[ci])
                     elif stepname == "where":
+                        # the "read-only" public entry points: none of them may leave anything behind, whether it
+                        # succeeds or raises for this client's network
                         nets[ci].where_species("H")
+                        for probe in (
+                            lambda: nets[ci].find_duplicate_reaction(mode="short"),
+                            lambda: nets[ci].find_source_sink(),
+                            lambda: nets[ci].write(work / f"w{ci}.naunet", "naunet"),
+                            lambda: __import__("naunet.patches", fromlist=["EnzoPatch"]).EnzoPatch("cpu").render(nets[ci], templates=["naunet_enzo.h.j2"], path=work / f"enzo{ci}"),
+                        ):
+                            try:
+                                probe()
+                            except Exception:
+                                pass
                     elif stepname == "render":
                         gl.add(globals_snapshot())
                         obs.append((c, "edited" if edited else "plain", do_render(c, nets[ci], work)))
